@@ -4,22 +4,23 @@ import OdxVerif.Proofs.DispatchDecode
 namespace OdxVerif.Dispatch
 open Spec
 
-/-- strict mode, any candidate list: the reported messages are exactly the interpretations of the
+/-- any mode, any candidate list: the reported messages are exactly the per-service contributions of the
     candidates; `DecodeError` iff there is none -/
-theorem decodeCandidates_strict_char {dec : Oracle} {M : Bytes} (h : NoForeign dec M) (L : Layer)
-    (cands : List Service) :
-    (∀ ms, decodeCandidates dec true L M cands = .ok ms →
-        ms ≠ [] ∧ ∀ s c, (s, c) ∈ ms ↔ (s ∈ cands ∧ Interp dec L M s c)) ∧
-    (∀ e, decodeCandidates dec true L M cands = .error e →
-        e = .decode ∧ ∀ s c, ¬ (s ∈ cands ∧ Interp dec L M s c)) := by
+theorem decodeCandidates_char {dec : Oracle} {M : Bytes} (h : NoForeign dec M) (strict : Bool) (L : Layer)
+    (cands : List Service) (P : Service → Coding → Prop)
+    (hP : ∀ s co, (s, co) ∈ perService dec strict L M s ↔ P s co) :
+    (∀ ms, decodeCandidates dec strict L M cands = .ok ms →
+        ms ≠ [] ∧ ∀ s co, (s, co) ∈ ms ↔ (s ∈ cands ∧ P s co)) ∧
+    (∀ e, decodeCandidates dec strict L M cands = .error e →
+        e = .decode ∧ ∀ s co, ¬ (s ∈ cands ∧ P s co)) := by
   rw [decodeCandidates_eq h]
-  have key : ∀ s c, (s, c) ∈ cands.flatMap (perService dec true L M) ↔ (s ∈ cands ∧ Interp dec L M s c) := by
-    intro s c
-    rw [mem_flatMap_perService, mem_perService_strict h]
-  by_cases h0 : cands.flatMap (perService dec true L M) = []
+  have key : ∀ s co, (s, co) ∈ cands.flatMap (perService dec strict L M) ↔ (s ∈ cands ∧ P s co) := by
+    intro s co
+    rw [mem_flatMap_perService, hP]
+  by_cases h0 : cands.flatMap (perService dec strict L M) = []
   · simp only [h0, if_true]
-    refine ⟨(fun ms hms => nomatch hms), fun e he => ⟨by cases he; rfl, fun s c hsc => ?_⟩⟩
-    have := (key s c).mpr hsc
+    refine ⟨(fun ms hms => nomatch hms), fun e he => ⟨by cases he; rfl, fun s co hsc => ?_⟩⟩
+    have := (key s co).mpr hsc
     rw [h0] at this
     cases this
   · simp only [h0, if_false]
@@ -27,28 +28,67 @@ theorem decodeCandidates_strict_char {dec : Oracle} {M : Bytes} (h : NoForeign d
     cases hms
     exact ⟨h0, key⟩
 
+/-- strict mode -/
+theorem decodeCandidates_strict_char {dec : Oracle} {M : Bytes} (h : NoForeign dec M) (L : Layer)
+    (cands : List Service) :
+    (∀ ms, decodeCandidates dec true L M cands = .ok ms →
+        ms ≠ [] ∧ ∀ s co, (s, co) ∈ ms ↔ (s ∈ cands ∧ Interp dec L M s co)) ∧
+    (∀ e, decodeCandidates dec true L M cands = .error e →
+        e = .decode ∧ ∀ s co, ¬ (s ∈ cands ∧ Interp dec L M s co)) :=
+  decodeCandidates_char h true L cands _ (mem_perService_strict h L)
+
+/-- non-strict mode -/
+theorem decodeCandidates_lenient_char {dec : Oracle} {M : Bytes} (h : NoForeign dec M) (L : Layer)
+    (cands : List Service) :
+    (∀ ms, decodeCandidates dec false L M cands = .ok ms →
+        ms ≠ [] ∧ ∀ s co, (s, co) ∈ ms ↔ (s ∈ cands ∧ InterpLenient dec L M s co)) ∧
+    (∀ e, decodeCandidates dec false L M cands = .error e →
+        e = .decode ∧ ∀ s co, ¬ (s ∈ cands ∧ InterpLenient dec L M s co)) :=
+  decodeCandidates_char h false L cands _ (mem_perService_lenient h L)
+
+/-- if every candidate has at most one matching own coding object, the mode is irrelevant -/
+theorem decodeCandidates_lenient_eq_strict {dec : Oracle} {M : Bytes} (h : NoForeign dec M) (L : Layer)
+    (cands : List Service) (hU : ∀ s ∈ cands, ownMatchCount dec s M ≤ 1) :
+    decodeCandidates dec false L M cands = decodeCandidates dec true L M cands := by
+  rw [decodeCandidates_eq h, decodeCandidates_eq h]
+  have : cands.flatMap (perService dec false L M) = cands.flatMap (perService dec true L M) := by
+    induction cands with
+    | nil => rfl
+    | cons s rest ih =>
+      simp only [List.flatMap_cons]
+      rw [perService_lenient_eq_strict h L s (hU s (by simp)), ih (fun s hs => hU s (by simp [hs]))]
+  rw [this]
+
 /-- if some candidate has an interpretation, strict decoding succeeds and reports it -/
 theorem decodeCandidates_reports {dec : Oracle} {M : Bytes} (h : NoForeign dec M) (L : Layer)
-    (cands : List Service) {s : Service} {c : Option Coding} (hs : s ∈ cands) (hi : Interp dec L M s c) :
-    ∃ ms, decodeCandidates dec true L M cands = .ok ms ∧ (s, c) ∈ ms := by
+    (cands : List Service) {s : Service} {co : Coding} (hs : s ∈ cands) (hi : Interp dec L M s co) :
+    ∃ ms, decodeCandidates dec true L M cands = .ok ms ∧ (s, co) ∈ ms := by
   obtain ⟨hok, herr⟩ := decodeCandidates_strict_char h L cands
   cases hd : decodeCandidates dec true L M cands with
-  | ok ms => exact ⟨ms, rfl, ((hok ms hd).2 s c).mpr ⟨hs, hi⟩⟩
-  | error e => exact absurd ⟨hs, hi⟩ ((herr e hd).2 s c)
+  | ok ms => exact ⟨ms, rfl, ((hok ms hd).2 s co).mpr ⟨hs, hi⟩⟩
+  | error e => exact absurd ⟨hs, hi⟩ ((herr e hd).2 s co)
 
 /-- an interpretation is a matching coding object, so the service is attributed -/
-theorem attributed_of_interp {dec : Oracle} {L : Layer} {M : Bytes} {s : Service} {c : Option Coding}
-    (hs : s ∈ L.services) (hi : Interp dec L M s c) :
-    ∃ co, c = some co ∧ co ∈ ownCodings s ++ L.gnrs ∧ Matches dec s M co ∧ Attributed dec L M s := by
-  obtain ⟨co, rfl, hm, (⟨ho, _⟩ | ⟨hg, _⟩)⟩ := hi
-  · exact ⟨co, rfl, by simp [ho], hm, hs, co, by simp [ho], hm⟩
-  · exact ⟨co, rfl, by simp [hg], hm, hs, co, by simp [hg], hm⟩
+theorem attributed_of_interp {dec : Oracle} {L : Layer} {M : Bytes} {s : Service} {co : Coding}
+    (hs : s ∈ L.services) (hi : Interp dec L M s co) :
+    co ∈ ownCodings s ++ L.gnrs ∧ Matches dec s M co ∧ Attributed dec L M s := by
+  obtain ⟨hm, (⟨ho, _⟩ | ⟨hg, _⟩)⟩ := hi
+  · exact ⟨by simp [ho], hm, hs, co, by simp [ho], hm⟩
+  · exact ⟨by simp [hg], hm, hs, co, by simp [hg], hm⟩
 
-/-- under the envelope, every attributed service is found and has an interpretation -/
+theorem attributed_of_interpLenient {dec : Oracle} {L : Layer} {M : Bytes} {s : Service} {co : Coding}
+    (hs : s ∈ L.services) (hi : InterpLenient dec L M s co) :
+    co ∈ ownCodings s ++ L.gnrs ∧ Matches dec s M co ∧ Attributed dec L M s := by
+  obtain ⟨hm, (hh | ⟨hg, _⟩)⟩ := hi
+  · have ho := ((mem_ownMatches dec s M co).mp (List.mem_of_head? hh)).1
+    exact ⟨by simp [ho], hm, hs, co, by simp [ho], hm⟩
+  · exact ⟨by simp [hg], hm, hs, co, by simp [hg], hm⟩
+
+/-- under the envelope, every attributed service is found and has an interpretation (strict mode) -/
 theorem interp_of_attributed {dec : Oracle} {L : Layer} {M : Bytes} {s : Service}
     (hU : ownMatchCount dec s M ≤ 1)
     (hNE : ∀ co ∈ ownCodings s ++ L.gnrs, constPrefix (Spec.requestPrefix s) co.params ≠ [])
-    (ha : Attributed dec L M s) : Found L M s ∧ ∃ c, Interp dec L M s c := by
+    (ha : Attributed dec L M s) : Found L M s ∧ ∃ co, Interp dec L M s co := by
   obtain ⟨_, co, hco, hm⟩ := ha
   refine ⟨found_of_matches hco hm (hNE co hco), ?_⟩
   by_cases h1 : ownMatchCount dec s M = 1
@@ -57,48 +97,58 @@ theorem interp_of_attributed {dec : Oracle} {L : Layer} {M : Bytes} {s : Service
     match hm' : ownMatches dec s M, hlen with
     | [x], _ =>
       have hx := (ownMatches_eq_singleton dec s M x).mp hm'
-      exact ⟨some x, x, rfl, hx.2.2, .inl ⟨hx.2.1, hx.1⟩⟩
+      exact ⟨x, hx.2.2, .inl ⟨hx.2.1, hx.1⟩⟩
   · -- it does not: then `co` cannot be an own coding object, so it is a global negative response
     rcases List.mem_append.mp hco with ho | hg
     · have : co ∈ ownMatches dec s M := (mem_ownMatches dec s M co).mpr ⟨ho, hm⟩
       have hpos : 0 < (ownMatches dec s M).length := List.length_pos_of_mem this
       rw [length_ownMatches] at hpos
       omega
-    · exact ⟨some co, co, rfl, hm, .inr ⟨hg, h1⟩⟩
+    · exact ⟨co, hm, .inr ⟨hg, h1⟩⟩
+
+/-- non-strict mode: no uniqueness needed -/
+theorem interpLenient_of_attributed {dec : Oracle} {L : Layer} {M : Bytes} {s : Service}
+    (hNE : ∀ co ∈ ownCodings s ++ L.gnrs, constPrefix (Spec.requestPrefix s) co.params ≠ [])
+    (ha : Attributed dec L M s) : Found L M s ∧ ∃ co, InterpLenient dec L M s co := by
+  obtain ⟨_, co, hco, hm⟩ := ha
+  refine ⟨found_of_matches hco hm (hNE co hco), ?_⟩
+  match hm' : ownMatches dec s M with
+  | x :: r =>
+    have hx : x ∈ ownMatches dec s M := by rw [hm']; simp
+    exact ⟨x, ((mem_ownMatches dec s M x).mp hx).2, .inl (by rw [hm']; rfl)⟩
+  | [] =>
+    have hc : ownMatchCount dec s M = 0 := by rw [← length_ownMatches, hm']; rfl
+    rcases List.mem_append.mp hco with ho | hg
+    · have : co ∈ ownMatches dec s M := (mem_ownMatches dec s M co).mpr ⟨ho, hm⟩
+      rw [hm'] at this; cases this
+    · exact ⟨co, hm, .inr ⟨hg, hc⟩⟩
 
 /-- an own coding object which matches uniquely is the interpretation -/
 theorem interp_of_own {dec : Oracle} {L : Layer} {M : Bytes} {s : Service} {co : Coding}
     (ho : co ∈ ownCodings s) (hm : Matches dec s M co) (hU : ownMatchCount dec s M ≤ 1) :
-    Interp dec L M s (some co) := by
+    Interp dec L M s co := by
   have : co ∈ ownMatches dec s M := (mem_ownMatches dec s M co).mpr ⟨ho, hm⟩
   have hpos : 0 < (ownMatches dec s M).length := List.length_pos_of_mem this
   rw [length_ownMatches] at hpos
-  exact ⟨co, rfl, hm, .inl ⟨ho, by omega⟩⟩
+  exact ⟨hm, .inl ⟨ho, by omega⟩⟩
 
-/-- non-strict mode, any candidate list -/
-theorem decodeCandidates_lenient_char {dec : Oracle} {M : Bytes} (h : NoForeign dec M) (L : Layer)
-    (cands : List Service) :
-    (∀ ms, decodeCandidates dec false L M cands = .ok ms →
-        ∀ s c, (s, c) ∈ ms ↔ (s ∈ cands ∧ c = (ownMatches dec s M).head?)) ∧
-    (∀ e, decodeCandidates dec false L M cands = .error e → e = .decode ∧ cands = []) := by
-  rw [decodeCandidates_eq h]
-  have key : ∀ s c, (s, c) ∈ cands.flatMap (perService dec false L M) ↔
-      (s ∈ cands ∧ c = (ownMatches dec s M).head?) := by
-    intro s c
-    rw [mem_flatMap_perService, perService_lenient h]
-    simp
-  by_cases h0 : cands.flatMap (perService dec false L M) = []
-  · simp only [h0, if_true]
-    refine ⟨(fun ms hms => nomatch hms), fun e he => ⟨by cases he; rfl, ?_⟩⟩
-    cases cands with
-    | nil => rfl
-    | cons s rest =>
-      have := (key s _).mpr ⟨by simp, rfl⟩
-      rw [h0] at this
-      cases this
-  · simp only [h0, if_false]
-    refine ⟨fun ms hms => ?_, fun e he => nomatch he⟩
-    cases hms
-    exact key
+/-- from a per-candidate characterisation to "the reported services are exactly the list `A`" -/
+theorem attribution_of_char (r : Except Err (List Msg)) (cands : List Service) (P : Service → Coding → Prop)
+    (A : List Service)
+    (hchar : (∀ ms, r = .ok ms → ms ≠ [] ∧ ∀ s co, (s, co) ∈ ms ↔ (s ∈ cands ∧ P s co)) ∧
+      (∀ e, r = .error e → e = .decode ∧ ∀ s co, ¬ (s ∈ cands ∧ P s co)))
+    (hiff : ∀ s, (∃ co, s ∈ cands ∧ P s co) ↔ s ∈ A) :
+    (∀ ms, r = .ok ms → ms ≠ [] ∧ ∀ s, (∃ c, (s, c) ∈ ms) ↔ s ∈ A) ∧
+    (∀ e, r = .error e → e = .decode ∧ A = []) := by
+  obtain ⟨hok, herr⟩ := hchar
+  refine ⟨fun ms hms => ?_, fun e he => ?_⟩
+  · obtain ⟨hne, hmem⟩ := hok ms hms
+    refine ⟨hne, fun s => ?_⟩
+    rw [← hiff s]
+    exact exists_congr fun c => hmem s c
+  · obtain ⟨rfl, hnone⟩ := herr e he
+    refine ⟨rfl, List.eq_nil_iff_forall_not_mem.mpr fun s hs => ?_⟩
+    obtain ⟨c, hc⟩ := (hiff s).mpr hs
+    exact hnone s c hc
 
 end OdxVerif.Dispatch
